@@ -6,7 +6,7 @@ condition (an `if`, an `else if`, a match-arm guard) compares the lengths of its
 in the reviewed table below with the reason why nothing that matters is dropped.
 """
 import re
-from .common import walk, src, strip, idents_in
+from .common import walk, src, strip, idents_in, syn_owner
 
 ADAPTERS = ("zip", "take", "skip", "step_by", "take_while", "skip_while", "nth")
 REVIEWED = {
@@ -57,7 +57,7 @@ def truncation_census(chk, facts, rule, mods=("check",)):
             if node.get("k") != "mcall" or node["m"] not in ADAPTERS:
                 continue
             n += 1
-            key = (f["qual"], node["m"] + "(" + ", ".join(src(strip(a)).replace(" ", "") for a in node["args"]) + ")")
+            key = (syn_owner(syn, f), node["m"] + "(" + ", ".join(src(strip(a)).replace(" ", "") for a in node["args"]) + ")")
             ok_auto = False
             if node["m"] == "zip" and node["args"]:
                 if anc is None:
@@ -86,9 +86,11 @@ def truncation_census(chk, facts, rule, mods=("check",)):
                 chk.ob(rule, f"trunc:{f['qual']}|{node['m']}|guarded", True, f"{f['qual']}: `{src(node)[:60]}` under an equal-length guard")
                 continue
             got[key] = got.get(key, 0) + 1
+    from .common import normalise_review
+    reviewed = normalise_review(syn, REVIEWED)
     for key, cnt in sorted(got.items()):
         fn, ad = key
-        rev = REVIEWED.get(key)
+        rev = reviewed.get(key)
         f = next((x for x in syn.fns if x["qual"] == fn), None)
         ok = rev is not None and cnt <= rev[0]
         chk.ob(rule, f"trunc:{fn}|{ad}", ok, f"{fn}: .{ad} x{cnt} - reviewed: {rev[1]}" if ok else
